@@ -157,6 +157,8 @@ class Ctx:
 
     def feasible(self, c=None):
         r, _, _ = self._check(*([] if c is None else [_b(c)]))
+        if r == z3.unknown:
+            self.unknown_feasibility = True      # (remembered: such a path may turn out infeasible at its end -- see explore)
         return r != z3.unsat          # unknown counts as feasible (sound for proving)
 
     def _decide(self, nalts, fingerprint, feas, payload=None):
@@ -444,8 +446,16 @@ def explore(harness, timeout_ms=20000, max_paths=20000, max_seconds=600, branch_
             ex.completed += 1
             # canary: a path whose condition became unsatisfiable through an `assume` proves everything
             if ctx.results and not ctx.tainted and ctx._check()[0] == z3.unsat:
-                ex.errors.append("vacuous path: path condition unsatisfiable at the end of a path with obligations %s"
-                                 % [r.name for r in ctx.results][:3])
+                if getattr(ctx, "unknown_feasibility", False):
+                    # a branch of this path was taken because the solver could not decide its feasibility in the short branch budget
+                    # (a loaded machine): the path does not exist; what was "proved" on it is vacuous and is dropped, it is no error
+                    ex.completed -= 1
+                    ex.infeasible += 1
+                    ctx.results = []
+                    ctx.covers = set()
+                else:
+                    ex.errors.append("vacuous path: path condition unsatisfiable at the end of a path with obligations %s"
+                                     % [r.name for r in ctx.results][:3])
         except PathInfeasible:
             ex.infeasible += 1
         except Unsupported as e:
